@@ -354,9 +354,21 @@ def in_domain_somewhere(item, rnd, tries=12):
     f = item.prog.func(item.fname)[0]
     for _ in range(tries):
         def val(t, n):
-            if n in item.bounds:
+            if n in item.bounds and t == "int":
                 return rnd.randint(*item.bounds[n])
-            return rnd.randint(-5, 5) if t == "int" else rnd.choice([-1.5, 0.0, 0.5, 2.0, 3.25])
+            if t in ("int", "uint"):
+                return rnd.randint(0 if t == "uint" else -5, 5)
+            if t == "float":
+                return rnd.choice([-1.5, 0.0, 0.5, 2.0, 3.25])
+            if A.is_vec(t):
+                return [val(A.comp_of(t), None) for _ in range(A.vec_n(t))]
+            if A.is_mat(t):
+                return [[val("float", None) for _ in range(A.mat_n(t))] for _ in range(A.mat_n(t))]
+            if A.is_arr(t):
+                def build(dims):
+                    return val(t[1], None) if not dims else [build(dims[1:]) for _ in range(dims[0])]
+                return build(list(t[2]))
+            raise ValueError(t)
         args = {n: val(t, n) for t, n in f.params}
         gl = {n: val(t, n) for t, n in item.prog.globals}
         try:
